@@ -338,7 +338,7 @@ def test_value(env: Env, a, variant=0):
     if T == "TENSORS":
         return [np.array([1, 2], dtype=np.int64)]
     if T == "TYPE_PROTO":
-        return env.ts.Tensor(np.float32, (2,))
+        return mk_type(env, TYPE_VARIANTS[1 if variant else 0])
     if T == "GRAPH":
         return "<callback>"
     if T == "SPARSE_TENSOR":
@@ -352,6 +352,63 @@ def test_value(env: Env, a, variant=0):
 #  - an attribute that doubles as the number of variadic outputs must always be given
 OUTPUT_COUNT_ATTRS = {"Split": "num_outputs"}
 N_VARIADIC_OUT = 2
+
+
+# ----------------------------------------------------------------------------- type values
+# (kind, …): the universe of values for TYPE_PROTO attributes - static, named, unknown and mixed
+# dimensions, unknown rank, rank 0, nested in sequences
+TYPE_VARIANTS = [
+    ("tensor", "float32", (2,)),
+    ("tensor", "float32", ("N", 3)),
+    ("tensor", "float16", ("M",)),
+    ("tensor", "int64", (None, "K", 2)),
+    ("tensor", "float32", None),
+    ("tensor", "bool_", ()),
+    ("tensor", "str_", ("N", "N")),
+    ("seq", ("tensor", "float16", ("M",))),
+    ("seq", ("tensor", "float32", ("batch", None, 3))),
+    ("seq", ("tensor", "int32", None)),
+]
+
+
+def mk_type(env, spec):
+    """the spox Type for a spec (public constructors `spox.Tensor`, `spox.Sequence`, `spox.Optional`)"""
+    np, sp = env.np, env.spox
+    if spec[0] == "tensor":
+        return sp.Tensor(getattr(np, spec[1]), spec[2])
+    if spec[0] == "seq":
+        return sp.Sequence(mk_type(env, spec[1]))
+    if spec[0] == "optional":
+        return sp.Optional(mk_type(env, spec[1]))
+    raise ValueError(spec)
+
+
+def describe_spec(np, onnx, spec):
+    """what the TypeProto of a spec must say, written down independently of spox and onnx.helper"""
+    if spec[0] == "tensor":
+        elem = onnx.TensorProto.STRING if spec[1] == "str_" else onnx.helper.np_dtype_to_tensor_dtype(np.dtype(getattr(np, spec[1])))
+        dims = None if spec[2] is None else [("param", d) if isinstance(d, str) else ("value", d) if d is not None else ("unknown",) for d in spec[2]]
+        return ("tensor", elem, dims)
+    return (spec[0], describe_spec(np, onnx, spec[1]))
+
+
+def describe_typeproto(tp):
+    """TypeProto -> the same description, read field by field"""
+    which = tp.WhichOneof("value")
+    if which == "tensor_type":
+        tt = tp.tensor_type
+        dims = None
+        if tt.HasField("shape"):
+            dims = []
+            for d in tt.shape.dim:
+                w = d.WhichOneof("value")
+                dims.append(("param", d.dim_param) if w == "dim_param" else ("value", d.dim_value) if w == "dim_value" else ("unknown",))
+        return ("tensor", tt.elem_type, dims)
+    if which == "sequence_type":
+        return ("seq", describe_typeproto(tp.sequence_type.elem_type))
+    if which == "optional_type":
+        return ("optional", describe_typeproto(tp.optional_type.elem_type))
+    return ("other", which)
 
 
 # ----------------------------------------------------------------------------- tensor values
@@ -456,6 +513,24 @@ def as_form(np, v, form):
     if form == "ndarray":
         return np.array(v) if v and not isinstance(v[0], str) else tuple(v)
     return v
+
+
+def mutate_list(lst, how, stranger):
+    """what a caller may do to *its own* list after having passed it to a constructor"""
+    if how == "append":
+        lst.append(stranger)
+    elif how == "pop" and lst:
+        lst.pop()
+    elif how == "reverse":
+        lst.reverse()
+        if len(set(map(id, lst))) <= 1:
+            lst.append(stranger)
+    elif how == "setitem" and lst:
+        lst[-1] = stranger
+    elif how == "clear":
+        lst.clear()
+    elif how == "insert0":
+        lst.insert(0, stranger)
 
 
 def slot_names(schema, case):
@@ -565,6 +640,23 @@ def gen_cases(schema, rng, budget_extra: int, all_attr_subsets_upto: int = 3):
             for form in FORMS:
                 cases.append({"present": sorted(full), "variadic": var_counts[-1],
                               "attrs": sorted(set(required_attrs) | {a}), "mode": "kw", "forms": {a: form}})
+    for a in attrs:
+        if schema.attributes[a].type.name == "TYPE_PROTO":
+            for ti in range(len(TYPE_VARIANTS)):
+                for ins in (set(), full):
+                    cases.append({"present": sorted(ins), "variadic": var_counts[-1],
+                                  "attrs": sorted(set(required_attrs) | {a}), "mode": "kw", "tvariant": {a: ti}})
+    # variadic inputs handed over as list / tuple, the caller's list mutated after the call: the node
+    # must hold the arguments given at the call
+    if variadic:
+        k = 0
+        for vc in (2, 3):
+            for vform, vmut in (("tuple", None), ("list", None), ("list", "append"), ("list", "pop"), ("list", "reverse"),
+                                ("list", "setitem"), ("list", "clear"), ("list", "insert0")):
+                for ins in (set(), full):
+                    cases.append({"present": sorted(ins), "variadic": vc, "attrs": sorted(required_attrs),
+                                  "mode": "pos" if k % 2 else "kw", "vform": vform, "vmut": vmut})
+                    k += 1
     # the same Var in several slots (emission must depend on positions, not on argument identity):
     # every presence pattern x {all slots, first = last non-empty, early pair, last pair, alternate, random}
     k = 0
@@ -579,7 +671,8 @@ def gen_cases(schema, rng, budget_extra: int, all_attr_subsets_upto: int = 3):
     seen, out = set(), []
     for c in cases:
         key = (tuple(c["present"]), c["variadic"], tuple(c["attrs"]), c["mode"], c.get("variant", 0),
-               repr(c.get("same")), repr(c.get("layout")), repr(c.get("forms")))
+               repr(c.get("same")), repr(c.get("layout")), repr(c.get("forms")), repr(c.get("tvariant")),
+               c.get("vform"), c.get("vmut"))
         if key not in seen:
             seen.add(key)
             out.append(c)
@@ -630,6 +723,7 @@ def run_case1(env: Env, fn, schema, case, prefer_seq):
     arg_desc = {}
     rep = rep_map(case)
     by_name = {}
+    caller_lists = []  # the list objects handed to the constructor for variadic inputs
 
     def mk(slot, formal):
         """the Var for a slot: a fresh argument, or the Var of the slot it is declared to share"""
@@ -652,7 +746,8 @@ def run_case1(env: Env, fn, schema, case, prefer_seq):
             arg_desc[formal.name] = {"k": "o", "v": None}
         else:
             vs = [mk(f"in_{formal.name}_{i}", formal) for i in range(case["variadic"] or 0)]
-            args[formal.name] = vs
+            caller_lists.append(vs)
+            args[formal.name] = tuple(vs) if case.get("vform") == "tuple" else vs
             arg_desc[formal.name] = {"k": "v", "v": [names[id(v)] for v in vs]}
     cb_vars = [env.argument(env.ts.Tensor(np.float32, (2, 3))) for _ in range(2)]
     keep += cb_vars
@@ -666,6 +761,8 @@ def run_case1(env: Env, fn, schema, case, prefer_seq):
         given[a] = (lambda *xs: list(cb_vars)) if sa.type.name == "GRAPH" else test_value(env, sa, case.get("variant", 0))
         if a in (case.get("layout") or {}):
             given[a] = layout_array(np, *case["layout"][a])
+        if a in (case.get("tvariant") or {}):
+            given[a] = mk_type(env, TYPE_VARIANTS[case["tvariant"][a]])
         if (case.get("forms") or {}).get(a, "").startswith("empty"):
             given[a] = []
     if count_attr in given:
@@ -730,6 +827,13 @@ def run_case1(env: Env, fn, schema, case, prefer_seq):
     var = first_var(env, out)
     if var is None:
         return {**res, "status": "no-output", "err": repr(out)[:100]}
+    # the caller goes on using its own list after the call
+    if case.get("vmut"):
+        stranger = env.argument(env.ts.Tensor(np.float32, (2, 3)))
+        keep.append(stranger)
+        names[id(stranger)] = "in_STRANGER"
+        for lst in caller_lists:
+            mutate_list(lst, case["vmut"], stranger)
     # from here on spox internals are used to *observe* the node: trouble is "unobservable", no verdict
     try:
         node = var._op
@@ -775,7 +879,8 @@ def attr_value_matches(env: Env, ap, sa, value, key) -> bool:
         if T == "TENSOR":
             return ap.type == AP.TENSOR and same_logical(np, decode_tensor(np, onnx, ap.t), np.asarray(value))
         if T == "TYPE_PROTO":
-            return ap.type == AP.TYPE_PROTO and ap.tp == onnx.helper.make_tensor_type_proto(onnx.TensorProto.FLOAT, (2,))
+            spec = next((s for s in TYPE_VARIANTS if mk_type(env, s) == value), None)
+            return ap.type == AP.TYPE_PROTO and spec is not None and describe_typeproto(ap.tp) == describe_spec(np, onnx, spec)
         if T == "GRAPH":
             return ap.type == AP.GRAPH and ap.g.name == key
     except Exception:  # noqa: BLE001
@@ -961,7 +1066,7 @@ PUBLIC_SPECS = [
 ]
 
 
-def public_case(env: Env, fn, schema, spec, present, attrs_given, mod=None, same=None):
+def public_case(env: Env, fn, schema, spec, present, attrs_given, mod=None, same=None, vmut=None):
     """constructor -> spox.build -> the operator's NodeProto in the ModelProto (public API only)"""
     np = env.np
 
@@ -970,6 +1075,7 @@ def public_case(env: Env, fn, schema, spec, present, attrs_given, mod=None, same
 
     args, build_in = {}, {}
     nvar = None
+    caller_list, elem_t = None, None
     rep = rep_map({"same": same})
 
     def var_for(slot, t):
@@ -985,6 +1091,7 @@ def public_case(env: Env, fn, schema, spec, present, attrs_given, mod=None, same
             vs = [var_for(f"in_{formal.name}_{i}", x) for i, x in enumerate(t or [])]
             nvar = len(vs)
             args[formal.name] = vs
+            caller_list, elem_t = vs, (t or [None])[0]
         elif kind == "Single" or formal.name in present:
             if t is None:
                 return None
@@ -998,12 +1105,18 @@ def public_case(env: Env, fn, schema, spec, present, attrs_given, mod=None, same
     case = {"present": sorted(present), "variadic": nvar, "attrs": sorted(given), "mode": "kw", "public": True}
     if same:
         case["same"] = same
+    if vmut:
+        case["vform"], case["vmut"] = "list", vmut
     shape_of = getattr(mod, "shape", None) or env.op17.shape  # same opset as the operator under test
     r = {"status": "ok", "given": given, "extra": {}, "node": None}
     try:
         with warnings.catch_warnings():
             warnings.simplefilter("ignore")
             out = fn(**args, **given)
+            if vmut and caller_list is not None and elem_t is not None:
+                # the caller goes on using its own list between the call and the build
+                build_in["in_STRANGER"] = mk(elem_t)
+                mutate_list(caller_list, vmut, build_in["in_STRANGER"])
             outs = []
 
             def flat(x):
@@ -1071,17 +1184,24 @@ def public_oracle(ck, env: Env, stats):
                 for same in spec.get("same", []):
                     if all(s in have for g in same for s in g):
                         combos.append((present, required, same))
+                if any(isinstance(v, list) for v in spec["inputs"].values()):
+                    for vm in ("append", "pop", "reverse", "setitem", "clear", "insert0"):
+                        combos.append((present, required, ("vmut", vm)))
             for present, attrs_given, same in combos:
-                    key = (tuple(present), tuple(sorted(attrs_given)), repr(same))
+                    vmut = None
+                    if isinstance(same, tuple) and same[0] == "vmut":
+                        vmut, same = same[1], None
+                    key = (tuple(present), tuple(sorted(attrs_given)), repr(same), vmut)
                     if key in seen:
                         continue
                     seen.add(key)
                     try:
-                        res = public_case(env, fn, schema, spec, set(present), attrs_given, mod, same)
+                        res = public_case(env, fn, schema, spec, set(present), attrs_given, mod, same, vmut)
                         if res is None:
                             continue
                         case, r = res
                         case["spec"] = si
+                        stats["public_variadic_mutation"] = stats.get("public_variadic_mutation", 0) + int(bool(vmut))
                         stats["public_repeated_var"] = stats.get("public_repeated_var", 0) + int(bool(same))
                         verdicts = judge(env, mid, op, version, schema, case, r)
                         verdicts += import_verdict(env, mid, op, schema, r)
@@ -1092,6 +1212,51 @@ def public_oracle(ck, env: Env, stats):
                     ck.count(("public", mid, op, key))
                     for k, what in verdicts:
                         ck.failure(k, what, {"module": mid, "op": op, "kind": "public", "case": case})
+
+
+def public_type_oracle(ck, env: Env, stats):
+    """`optional(type=T)` (the one operator with a TYPE_PROTO attribute) through the public API for
+    every type value, named dimensions included: the TypeProto in the built model is read field by
+    field and must say exactly T."""
+    from translator.constructors import MODULES
+
+    np, onnx = env.np, env.onnx
+    for mid, rel, domain, version, pymod in MODULES:
+        if domain != "":
+            continue
+        try:
+            mod = env.module(pymod)
+            fn = mod._CONSTRUCTORS.get("Optional")
+        except Exception:  # noqa: BLE001
+            continue
+        if fn is None:
+            continue
+        for ti, spec in enumerate(TYPE_VARIANTS):
+            case = {"present": [], "variadic": None, "attrs": ["type"], "mode": "kw", "tvariant": {"type": ti}, "public": True}
+            doc = {"module": mid, "op": "Optional", "kind": "public-type", "case": case}
+            try:
+                with warnings.catch_warnings():
+                    warnings.simplefilter("ignore")
+                    try:
+                        o = fn(type=mk_type(env, spec))
+                        model = env.spox.build({}, {"y": o})
+                    except Exception as e:  # noqa: BLE001
+                        ck.failure(f"{mid}:Optional:call:raised", f"optional(type={spec}) raised {type(e).__name__}: {str(e)[:150]}", doc)
+                        continue
+                got = None
+                for n in model.graph.node:
+                    if n.op_type == "Optional":
+                        for a in n.attribute:
+                            if a.name == "type" and a.type == onnx.AttributeProto.TYPE_PROTO:
+                                got = describe_typeproto(a.tp)
+                want = describe_spec(np, onnx, spec)
+            except Exception as e:  # noqa: BLE001
+                ck.broken("correspondence", f"public type oracle {mid} not observable", f"{type(e).__name__}: {e}")
+                continue
+            stats["public_type_cases"] = stats.get("public_type_cases", 0) + 1
+            ck.count(("public-type", mid, ti))
+            if got != want:
+                ck.failure(f"{mid}:Optional:type:value", f"optional(type={spec}) is emitted with type attribute {got}, expected {want}", doc)
 
 
 def public_tensor_oracle(ck, env: Env, stats):
@@ -1321,7 +1486,7 @@ def internal_oracle(ck, env: Env, info, stats, extra):
                     cache[ckey] = runs
                 for case, r in cache[ckey]:
                     stats["calls"] += 1
-                    ck.count(("call", mid, op, tuple(case["present"]), case["variadic"], tuple(case["attrs"]), case["mode"], case.get("variant", 0), repr(case.get("same")), repr(case.get("layout")), repr(case.get("forms"))))
+                    ck.count(("call", mid, op, tuple(case["present"]), case["variadic"], tuple(case["attrs"]), case["mode"], case.get("variant", 0), repr(case.get("same")), repr(case.get("layout")), repr(case.get("forms")), repr(case.get("tvariant")), case.get("vform"), case.get("vmut")))
                     for key, what in judge(env, mid, op, version, schema, case, r, cls):
                         ck.failure(key, what, {"module": mid, "op": op, "kind": "call", "case": case})
                     if r["status"] == "unobservable":
@@ -1339,6 +1504,8 @@ def internal_oracle(ck, env: Env, info, stats, extra):
                         stats["attr_values_checked"] += len(r["given"])
                         stats["tensor_layout_calls"] = stats.get("tensor_layout_calls", 0) + int(bool(case.get("layout")))
                         stats["iterable_form_calls"] = stats.get("iterable_form_calls", 0) + int(bool(case.get("forms")))
+                        stats["type_value_calls"] = stats.get("type_value_calls", 0) + int(bool(case.get("tvariant")))
+                        stats["variadic_mutation_calls"] = stats.get("variadic_mutation_calls", 0) + int(bool(case.get("vform")))
                         stats["repeated_var_calls"] = stats.get("repeated_var_calls", 0) + int(bool(case.get("same")))
                         stats["dtype_attrs"] += len(r["dtype_attrs"])
                         stats["graph_attr_calls"] += int(any(sa.type.name == "GRAPH" for sa in schema.attributes.values()))
@@ -1408,8 +1575,9 @@ def run(ck: core.Check):
         public_oracle(ck, env, stats)
         try:
             public_tensor_oracle(ck, env, stats)
+            public_type_oracle(ck, env, stats)
         except Exception as e:  # noqa: BLE001
-            ck.broken("correspondence", "public tensor oracle not observable", f"{type(e).__name__}: {e}")
+            ck.broken("correspondence", "public tensor/type oracle not observable", f"{type(e).__name__}: {e}")
     reqs, req_meta = [], []
     if env is not None:
         try:
@@ -1485,14 +1653,14 @@ def replay(ck: core.Check, doc) -> bool:
     if c.get("kind") == "public" and fn is not None and find_spec(op) is not None:
         cs = c["case"]
         spec = PUBLIC_SPECS[cs["spec"]] if "spec" in cs and cs["spec"] < len(PUBLIC_SPECS) and PUBLIC_SPECS[cs["spec"]]["op"] == op else find_spec(op)
-        res = public_case(env, fn, schema, spec, set(cs["present"]), cs["attrs"], mod, cs.get("same"))
+        res = public_case(env, fn, schema, spec, set(cs["present"]), cs["attrs"], mod, cs.get("same"), cs.get("vmut"))
         if res is not None:
             verdicts += judge(env, mid, op, version, schema, res[0], res[1])
             verdicts += import_verdict(env, mid, op, schema, res[1])
-    if c.get("kind") == "public-tensor":
+    if c.get("kind") in ("public-tensor", "public-type"):
         ck2 = core.Check("C11", "quick", 0)
         ck2._findings = []
-        public_tensor_oracle(ck2, env, {})
+        (public_tensor_oracle if c["kind"] == "public-tensor" else public_type_oracle)(ck2, env, {})
         verdicts += [(f["key"], f["what"]) for f in ck2.failures]
     if c.get("kind") == "call" and fn is not None:
         r = run_case(env, fn, schema, c["case"])
